@@ -3,7 +3,9 @@ import TunnoxModel.Gen.CrossNode
 # C10 — ties of the model to the current Go source (T2)
 
 `Gen.Skel.*` / `Gen.Flow.*` are regenerated from `internal/protocol/session/crossnode/{frame,stream}.go`
-on every run.  Each theorem below pins the call skeleton, resp. the complete normalized control flow
+and
+`internal/protocol/session/cross_node_forward_helper.go` (runBidirectionalForward, observed by the `fw`
+harness cases) on every run.  Each theorem below pins the call skeleton, resp. the complete normalized control flow
 (guards, their order, offset arithmetic, error-message texts; logging and comments excluded) of one
 function that `Model/C10.lean` mirrors.  Any edit of such a function breaks the corresponding theorem
 and forces the model (and with it every proof in `Props/C10.lean`) to be re-examined.
@@ -263,6 +265,63 @@ theorem flow_FrameStream_Close : Gen.Flow.FrameStream_Close = [
   "end",
   "s.writeEOF = true",
   "return nil"
+] := rfl
+
+theorem flow_runBidirectionalForward : Gen.Flow.runBidirectionalForward = [
+  "done := make(chan struct{}, 2)",
+  "var closeOnce sync.Once",
+  "var uploadDone, downloadDone int32",
+  "logPrefix := config.LogPrefix",
+  "if logPrefix == \"\"",
+  "logPrefix = \"BidirectionalForward\"",
+  "end",
+  "closeAll := func",
+  "closeOnce.Do(func",
+  "if err := config.RemoteConn.Close(); err != nil",
+  "end",
+  "if config.LocalConnCloser != nil",
+  "if err := config.LocalConnCloser.Close(); err != nil",
+  "end",
+  "else",
+  "if closer, ok := config.LocalConn.(io.Closer); ok",
+  "if err := closer.Close(); err != nil",
+  "end",
+  "end",
+  "end",
+  "end)",
+  "end",
+  "localConn := config.LocalConn",
+  "if config.BytesSentCounter != nil || config.BytesReceivedCounter != nil",
+  "localConn = NewCountingReadWriter( config.LocalConn, config.BytesSentCounter, config.BytesReceivedCounter, )",
+  "end",
+  "go func",
+  "defer func",
+  "atomic.StoreInt32(&uploadDone, 1)",
+  "if halfCloser, ok := config.RemoteConn.(HalfCloser); ok",
+  "if err := halfCloser.CloseWrite(); err != nil",
+  "else",
+  "end",
+  "end",
+  "if atomic.LoadInt32(&downloadDone) == 1",
+  "closeAll()",
+  "end",
+  "done <- struct{}{}",
+  "end()",
+  "n, err := io.Copy(config.RemoteConn, localConn)",
+  "end()",
+  "go func",
+  "defer func",
+  "atomic.StoreInt32(&downloadDone, 1)",
+  "if atomic.LoadInt32(&uploadDone) == 1",
+  "closeAll()",
+  "end",
+  "done <- struct{}{}",
+  "end()",
+  "n, err := io.Copy(localConn, config.RemoteConn)",
+  "end()",
+  "<-done",
+  "<-done",
+  "closeAll()"
 ] := rfl
 
 end Tunnox.C10.Ties
